@@ -16,6 +16,7 @@ import Proofs.GenTables
 import Proofs.C06
 import Proofs.C07
 import Proofs.C16
+import Proofs.Lemmas.WalkTop
 
 namespace Xsel.C15
 open Xsel
@@ -36,5 +37,33 @@ theorem truncated_json_is_error (vs : List JVal) (v : JVal) (p : List Json.Tok)
     (hp : p <+: Json.tokensOf v) (hne : p ≠ []) (hproper : p ≠ Json.tokensOf v) :
     Json.adapter (vs.flatMap Json.tokensOf ++ p) = none :=
   C16.json_truncated_errors vs v p hp hne hproper
+
+/-- **handler_walk_never_panics** — the partial operations of the handler layer (exec/contextfn*.go:
+    `children[1]` of a node, `literal[1:len-1]`, the nil BSR of a node without nonterminal child,
+    `GetTChildI` on a nonterminal position) are explicit `panic` outcomes in the model of the walk over the
+    parse forest (`Xsel/Walk.lean`); on the derivation tree of EVERY expression of the modelled domain, with
+    the handler table regenerated from the code, none of them is reached: `Exec` returns a value or one of
+    the declared errors, never its internal "xpath query panic" -/
+theorem handler_walk_never_panics (a : Arena) (env : Env) (start : Nat) (e : Expr) (h : Walk.walkOk e = true) :
+    Walk.run Generated.handlers a env start (Walk.derivTop e) ≠ .error .panic :=
+  Walk.walk_never_panics a env start e h
+
+/-- … and the outcome is the evaluator's (value or declared error) -/
+theorem handler_walk_result_or_error (a : Arena) (env : Env) (start : Nat) (e : Expr) (h : Walk.walkOk e = true) :
+    (∃ v, Walk.run Generated.handlers a env start (Walk.derivTop e) = .ok v) ∨
+    (∃ err, Walk.run Generated.handlers a env start (Walk.derivTop e) = .error (.err err)) := by
+  rw [Walk.walk_refines_eval a env start e h]
+  cases Model.run a env start (Syntax.normCtx e) with
+  | ok v => exact .inl ⟨v, rfl⟩
+  | error err => exact .inr ⟨err, rfl⟩
+
+/-- a panic IS reachable in the model when a handler is registered for a nonterminal whose production does
+    not have the children it indexes (the class of defect the regenerated fact
+    `binary_handlers_have_two_children` excludes): `leftRightDependentResult` on the one-child node `Step` -/
+example : (match Walk.run [("Step", "leftRightDependentResult")] #[] {} 0
+      (Walk.N "Step" [Walk.N "AbbreviatedStep" [Walk.N "AbbreviatedStepSelf" [Walk.tkp .dot]]]) with
+    | .error .panic => true
+    | _ => false) = true := by
+  decide +kernel
 
 end Xsel.C15
